@@ -22,7 +22,7 @@ EXPLANATION = (
     "resets it only when duplicates are allowed; S7 PBT's exploration writes only sampled or clipped-and-cast values. "
     "NOT decided: that model-based candidates decode into the domain (C07 numeric clauses).")
 
-FLOOR = {"S1": 4, "S2": 5, "S3": 2, "S4": 5, "S5": 1, "S6": 3, "S7": 2}
+FLOOR = {"S1": 4, "S2": 5, "S3": 4, "S4": 5, "S5": 1, "S6": 3, "S7": 2}
 
 
 def s1(ctx, rep):
@@ -168,6 +168,17 @@ def s3(ctx, rep):
         ok = ok and bool(adds) and cfg.path([s for s, l in cfg.succ[app[0][0]]], loop[0].id, deleted=set(adds), skip_labels=("exc",)) is None
     rep.put(ok, "S3", "guarded_by", "impute_points_to_evaluate: appended in input order, only if not seen, and recorded as seen", f, None, "",
             "duplicates among the initial configurations are not removed, or the order is not the given one")
+    dv = P.func("syne_tune.optimizer.schedulers.searchers.searcher._default_config_value")
+    src_param = dv.params[0]
+    bad = tainted_returns(dv, lambda e: isinstance(e, ast.Subscript) and isinstance(e.value, ast.Name) and e.value.id == src_param,
+                          lambda c: fn_name(c) == "cast")
+    rep.put(not bad, "S3", "taint", "_default_config_value: a user-supplied initial value enters the configuration only through Domain.cast", dv,
+            bad[0][0] if bad else None, "", f"`{U(bad[0][0]) if bad else ''}` returns the value as the user wrote it, not the value cast to the "
+            "domain: duplicates are removed on un-cast values, so two initial points that cast to the same configuration are both "
+            "kept and the same configuration is suggested twice")
+    im = P.func("syne_tune.optimizer.schedulers.searchers.searcher._impute_default_config")
+    ok = any(isinstance(x, ast.Assign) and isinstance(x.value, ast.Call) and fn_name(x.value) == "_default_config_value" for x in walk_shallow(im.node))
+    rep.put(ok, "S3", "agreement", "_impute_default_config takes given values through _default_config_value", im, None, "")
     ks = P.func("syne_tune.optimizer.schedulers.searchers.searcher._sorted_keys")
     ok = any(isinstance(x, ast.Call) and isinstance(x.func, ast.Name) and x.func.id == "sorted" for x in walk_shallow(ks.node))
     rep.put(ok, "S3", "agreement", "impute_points_to_evaluate compares configurations on the sorted hyperparameter keys", ks, None, "")
